@@ -116,3 +116,11 @@ func RunGrid(rep *explore.Report, cfgs []*Config, mk func() Visitor, o GridOpts)
 		rep.Sample(map[string]any{"configuration": cfgs[len(cfgs)/2]})
 	}
 }
+
+func numCPU() int {
+	par := runtime.NumCPU()
+	if v, err := strconv.Atoi(os.Getenv("VERIF_PAR")); err == nil && v > 0 {
+		par = v
+	}
+	return par
+}
